@@ -160,7 +160,7 @@ func buildGzip(ms []gzMember) *fcase {
 		}
 		base := file.Len()
 		c.truth = append(c.truth, "M", kv("flg", flg), kv("name", opt(m.name)), kv("comment", opt(m.comment)), kv("extra", ex),
-			kv("mtime", m.mtime), kv("mdesc", hxs(time.Unix(int64(m.mtime), 0).UTC().Format(time.RFC3339))), kv("xfl", xfl), kv("os", m.os), kv("hlen", hlen), kv("clen", clen), kv("data", hx(m.data)))
+			kv("mtime", m.mtime), kv("mdesc", hxs(time.Unix(int64(m.mtime), 0).UTC().Format(time.RFC3339))), kv("xfl", xfl), kv("os", m.os), kv("hcrc", "~"), kv("hlen", hlen), kv("clen", clen), kv("data", hx(m.data)))
 		// regions: compressed stream (z) or the verbatim payload of a single stored block (d); trailer crc (d)
 		if m.level == gzip.NoCompression && len(m.data) > 0 && len(m.data) <= 65535 &&
 			bytes.Equal(b.Bytes()[hlen+5:hlen+5+len(m.data)], m.data) {
@@ -169,9 +169,66 @@ func buildGzip(ms []gzMember) *fcase {
 			c.regions = append(c.regions, region{base + hlen, base + hlen + clen, 'z'})
 		}
 		c.regions = append(c.regions, region{base + hlen + clen, base + hlen + clen + 4, 'd'})
+		// ISIZE: stored, never verified by fq (kind u)
+		c.regions = append(c.regions, region{base + hlen + clen + 4, base + hlen + clen + 8, 'u'})
 		file.Write(b.Bytes())
 	}
 	c.file = file.Bytes()
+	return c
+}
+
+// genGzipRaw: a hand-rolled RFC 1952 writer (deflate by compress/flate) so that every combination of the five
+// FLG bits is produced, including FTEXT and FHCRC (CRC-16 = low half of the CRC-32 of the header so far),
+// which compress/gzip never emits. i%32 = FLG.
+func genGzipRaw(r *hlib.Rand, i int) *fcase {
+	flg := i % 32
+	m := gzMember{os: 3, mtime: uint32(r.U64()), level: []int{-1, 0, 1, 9}[(i/32)%4]}
+	m.data = genPayload(r, []int{2, 3, 4, 1, 0}[(i/32)%5])
+	var h bytes.Buffer
+	xfl := 0
+	if m.level == 9 {
+		xfl = 2
+	} else if m.level == 1 {
+		xfl = 4
+	}
+	h.Write([]byte{0x1f, 0x8b, 8, byte(flg)})
+	binary.Write(&h, binary.LittleEndian, m.mtime)
+	h.Write([]byte{byte(xfl), m.os})
+	ex, hc := "~", "~"
+	if flg&4 != 0 {
+		m.extra = r.Bytes([]int{0, 3, 40}[r.Intn(3)])
+		binary.Write(&h, binary.LittleEndian, uint16(len(m.extra)))
+		h.Write(m.extra)
+		ex = hx(m.extra)
+	}
+	if flg&8 != 0 {
+		m.name = genName(r, []int{0, 2}[r.Intn(2)])
+		h.WriteString(m.name)
+		h.WriteByte(0)
+	}
+	if flg&16 != 0 {
+		m.comment = []string{"c", "a comment"}[r.Intn(2)]
+		h.WriteString(m.comment)
+		h.WriteByte(0)
+	}
+	if flg&2 != 0 {
+		c16 := uint16(crc32.ChecksumIEEE(h.Bytes()))
+		hb := []byte{byte(c16), byte(c16 >> 8)}
+		h.Write(hb)
+		hc = hx(hb)
+	}
+	hlen := h.Len()
+	var z bytes.Buffer
+	fw, _ := flate.NewWriter(&z, m.level)
+	fw.Write(m.data)
+	fw.Close()
+	h.Write(z.Bytes())
+	binary.Write(&h, binary.LittleEndian, crc32.ChecksumIEEE(m.data))
+	binary.Write(&h, binary.LittleEndian, uint32(len(m.data)))
+	c := &fcase{format: "gzip", file: h.Bytes(), class: fmt.Sprintf("gzipraw.f%d.l%d.%d", flg, m.level, (i/32)%5)}
+	c.truth = []string{kv("n", 1), "M", kv("flg", flg), kv("name", opt(m.name)), kv("comment", opt(m.comment)), kv("extra", ex),
+		kv("mtime", m.mtime), kv("mdesc", hxs(time.Unix(int64(m.mtime), 0).UTC().Format(time.RFC3339))), kv("xfl", xfl), kv("os", m.os),
+		kv("hcrc", hc), kv("hlen", hlen), kv("clen", z.Len()), kv("data", hx(m.data))}
 	return c
 }
 
@@ -337,6 +394,8 @@ func buildZip(ms []zipMember, comment string) *fcase {
 	var b bytes.Buffer
 	w := zip.NewWriter(&b)
 	c := &fcase{format: "zip", truth: []string{kv("n", len(ms)), kv("comment", opt(comment))}}
+	var fhs []*zip.FileHeader
+	var clenAt []int
 	for _, m := range ms {
 		level := m.level
 		w.RegisterCompressor(zip.Deflate, func(out io.Writer) (io.WriteCloser, error) { return flate.NewWriter(out, level) })
@@ -393,7 +452,9 @@ func buildZip(ms []zipMember, comment string) *fcase {
 		}
 		c.truth = append(c.truth, "F", kv("name", hxs(m.name)), kv("method", m.method), kv("dd", dd), kv("fcomment", opt(m.comment)),
 			kv("off", off), kv("fdate", fdate), kv("ftime", ftime), kv("guess", guess.Unix()), kv("gdesc", hxs(guess.Format("2006-01-02T15:04:05"))),
-			kv("xt", xt), kv("ext", fh.ExternalAttrs), kv("utf8", fh.Flags>>11&1), kv("data", hx(m.data)))
+			kv("xt", xt), kv("ext", fh.ExternalAttrs), kv("utf8", fh.Flags>>11&1), "clen=?", kv("data", hx(m.data)))
+		fhs = append(fhs, fh)
+		clenAt = append(clenAt, len(c.truth)-2)
 		// payload of a stored member without descriptor: covered by crc32_uncompressed, which fq never verifies
 		if m.method == zip.Store && !m.dd && len(m.data) > 0 {
 			st := off + hl
@@ -407,6 +468,9 @@ func buildZip(ms []zipMember, comment string) *fcase {
 	}
 	if err := w.Close(); err != nil {
 		panic(err)
+	}
+	for k, fh := range fhs { // the compressed size of a streamed member is known once it is closed
+		c.truth[clenAt[k]] = kv("clen", fh.CompressedSize64)
 	}
 	c.file = b.Bytes()
 	return c
